@@ -525,6 +525,15 @@ func (s *SQLiteStore) streamBatch(
 		}
 	}
 
+	// rows.Next() also returns false when fetching a row failed or the context was
+	// cancelled: without this check a short batch would be taken for the end of the log
+	if err := rows.Err(); err != nil {
+		rows.Close() // Best effort close, iteration error takes precedence
+		*iterErr = fmt.Errorf("sqlite: iterate events: %w", err)
+		yield(nil, *iterErr)
+		return batchCount, lastPos, false
+	}
+
 	if err := rows.Close(); err != nil {
 		*iterErr = fmt.Errorf("sqlite: close rows: %w", err)
 		yield(nil, *iterErr)
